@@ -170,6 +170,9 @@ func corrC08(c *corrCtx) {
 		jfull, jneeded := jd.build()
 		inputs = append(inputs, seedFile{fmt.Sprintf("jpeg-icc-exact-end-%d", psz), "jpeg", jfull[:jneeded], jneeded})
 	}
+	// ICC carriers ending at every offset around the 4096-byte buffer boundaries
+	al, _ := alignedFiles(r, alignTargets(c.thorough()))
+	inputs = append(inputs, al...)
 	for _, s := range inputs {
 		lds := []string{"auto"}
 		if s.format != "none" {
